@@ -181,6 +181,16 @@ def config_text(case):
             if b["hu"]:
                 L.append("  upperWalls " + " ".join("%r" % t[2] for t in b["terms"]))
                 L.append("  upperWallConstant %r" % b["uwk"])
+        mv_ = b.get("moving")
+        if mv_:
+            # moving restraint (continuous update): centres and/or force constant are functions of the step number
+            L.append("  targetNumSteps %d" % mv_["N"])
+            if mv_.get("tc") is not None:
+                L.append("  targetCenters " + " ".join(("%r" % c) if not isinstance(c, (tuple, list)) else "(" + ", ".join("%r" % x for x in c) + ")" for c in mv_["tc"]))
+            if mv_.get("tk") is not None:
+                L.append("  targetForceConstant %r" % mv_["tk"])
+                if mv_.get("kexp", 1.0) != 1.0:
+                    L.append("  lambdaExponent %r" % mv_["kexp"])
         L.append("}")
     return "\n".join(L)
 
@@ -224,7 +234,7 @@ def n_event_steps(case):
     """steps run before the base step because of the history: one warm-up step (the components are in use when they are
     modified) and one step after every script call"""
     n = len(event_lines(case))
-    return n + 1 if n else 0
+    return n + 1 if (n or case.get("fd_setstep") is not None) else 0
 
 
 def npre_steps(case):
@@ -257,7 +267,9 @@ def scenario(case, tag, with_fd=True):
     if case.get("setstep") is not None:
         L.append("setstep %d" % case["setstep"])
     ev = event_lines(case)
-    if ev:
+    if ev or case.get("fd_setstep") is not None:
+        # (with fd_setstep: the first step of a session does not advance the step counter, every later one does; after this
+        # warm-up step every measured step runs at step number fd_setstep + 1)
         L += ["show cv 0 bias 0 atomf 0", "step"]
         for ln in ev:
             L += [ln, "step"]
@@ -268,13 +280,16 @@ def scenario(case, tag, with_fd=True):
         L.append("step")
         for i, (m, q, p) in enumerate(at):
             L.append("pos %d %s %s %s" % (i + 1, hx(p[0]), hx(p[1]), hx(p[2])))
-    L += ["show cv 1 bias 1 atomf 1 af 1", "step", "show cv 1 bias 0 atomf 0 af 0"]
+    # moving restraints: every measured step is run at the same step number, where centres / force constant are frozen
+    fs = ["setstep %d" % case["fd_setstep"]] if case.get("fd_setstep") is not None else []
+    L += ["show cv 1 bias 1 atomf 1 af 1"] + fs + ["step", "show cv 1 bias 0 atomf 0 af 0"]
     if with_fd:
         for (a, k) in fd_coords(case):
             p = list(at[a][2])
             for h in (H1, -H1, H2, -H2):
                 q = list(p); q[k] = p[k] + h
                 L.append("pos %d %s %s %s" % (a + 1, hx(q[0]), hx(q[1]), hx(q[2])))
+                L += fs
                 L.append("step")
             L.append("pos %d %s %s %s" % (a + 1, hx(p[0]), hx(p[1]), hx(p[2])))
         if case.get("presteps"):
@@ -420,14 +435,27 @@ def model_line(case, res=None):
             ref = abmd_ref(b, [p["v%d" % i][0] for p in pre])
             t += ["abmd", hx(b["k"]), "1" if b["dec"] else "0", str(vmap[i][0]), hx(ref)]
             continue
+        lam = None
+        keff = lambda k0: k0
+        if b.get("moving"):
+            # colvarbias_restraint_centers_moving / k_moving::update, continuous: lambda = (step - first_step) / targetNumSteps
+            lam = (case["fd_setstep"] + 1) / float(b["moving"]["N"])
+            if b["moving"].get("tk") is not None:
+                keff = lambda k0: k0 + (b["moving"]["tk"] - k0) * lam ** b["moving"].get("kexp", 1.0)
         if b["type"] in ("harmonic", "linear"):
             terms = []
-            for (i, c) in b["terms"]:
+            for ti, (i, c) in enumerate(b["terms"]):
+                if lam is not None and b["moving"].get("tc") is not None:
+                    c1 = b["moving"]["tc"][ti]
+                    if isinstance(c, (tuple, list)):
+                        c = tuple((1.0 - lam) * x0 + lam * x1 for x0, x1 in zip(c, c1))
+                    else:
+                        c = (1.0 - lam) * c + lam * c1
                 if isinstance(c, (tuple, list)):
                     terms += [(j, cj) for j, cj in zip(vmap[i], c)]
                 else:
                     terms.append((vmap[i][0], c))
-            t += [b["type"], hx(b["k"]), str(len(terms))]
+            t += [b["type"], hx(keff(b["k"])), str(len(terms))]
             for (i, c) in terms:
                 t += [str(i), hx(c)]
         else:
@@ -439,7 +467,7 @@ def model_line(case, res=None):
                 k = b["uwk"]; lk = 1.0; uk = 1.0
             else:
                 k = b["lwk"]; lk = 1.0; uk = 1.0
-            t += ["walls", hx(k), hx(lk), hx(uk), "1" if hl else "0", "1" if hu else "0", str(len(b["terms"]))]
+            t += ["walls", hx(keff(k)), hx(lk), hx(uk), "1" if hl else "0", "1" if hu else "0", str(len(b["terms"]))]
             for (i, lo, up) in b["terms"]:
                 t += [str(vmap[i][0]), hx(lo), hx(up)]
     # history of run-time modifications (component indices in configuration order, as in the model's lists)
@@ -921,6 +949,27 @@ def gen_case(r, kinds, opts):
         case["biases"][r.randrange(len(case["biases"]))] = b
     if opts.get("events") and r.random() < opts["events"]:
         add_history(r, case, n_atoms, opts)
+    if opts.get("moving") and r.random() < opts["moving"] and not case.get("presteps"):
+        # moving restraints, evaluated at a fixed step number S <= targetNumSteps (dyadic lambda = S/N)
+        N = r.choice([1024, 512])
+        for b in case["biases"]:
+            if b["type"] not in ("harmonic", "linear", "walls"):
+                continue
+            mv_ = {"N": N}
+            m = r.random()
+            plain_vars = not any(var_period(case["vars"][t[0]]) for t in b["terms"])
+            if b["type"] != "walls" and plain_vars and m < 0.5:
+                def shift(c):
+                    if isinstance(c, (tuple, list)):
+                        return tuple(x + V.dyadic(r, -1, 1, bits=3) for x in c)
+                    return c + V.dyadic(r, -2, 2, bits=3)
+                mv_["tc"] = [shift(t[1]) for t in b["terms"]]
+            if "tc" not in mv_:        # (moving centres and a changing force constant exclude each other)
+                mv_["tk"] = r.choice([4.0, 0.25, 8.0, 1.5])
+                mv_["kexp"] = r.choice([1.0, 1.0, 2.0, 4.0])
+            b["moving"] = mv_
+            if "fd_setstep" not in case:
+                case["fd_setstep"] = r.choice([N // 4, N // 2, 3 * N // 4, N]) - 1      # lambda = (S + 1)/N is dyadic
     return case
 
 
@@ -1695,7 +1744,7 @@ def check(run):
     model, exes = st
     vsim = exes["vsim_c01"]
 
-    opts = {"dummy": True, "center": True, "poly": True, "cell": True, "nofitgrad": True, "vec": 0.12, "pairs": 0.08, "hist": 0.2, "histr": 0.1, "events": 0.15, "biases": ["harmonic", "harmonic", "walls", "linear"]}
+    opts = {"dummy": True, "center": True, "poly": True, "cell": True, "nofitgrad": True, "vec": 0.12, "pairs": 0.08, "hist": 0.2, "histr": 0.1, "events": 0.15, "moving": 0.1, "biases": ["harmonic", "harmonic", "walls", "linear"]}
     kinds = T1 + T1 + T2
     ncases = 500 if quick else 40000
     cases = load_corpus()
@@ -1760,6 +1809,9 @@ def check(run):
             run.dist("bias:" + b["type"])
         if history_label(case):
             run.dist(history_label(case))
+        for b in case["biases"]:
+            if b.get("moving"):
+                run.dist("moving:%s:%s" % (b["type"], "centers" if b["moving"].get("tc") is not None else "forceConstant"))
         if res is not None and not res.get("done") and res.get("config") and "err=ok" in res["config"]:
             run.violation("crash:" + signature(case)[3:], "the engine simulator died (rc=%s) on a generated configuration: %s" % (res.get("rc"), res.get("stderr", "")[-200:]),
                           {"kind": "scenario", "scenario": scenario(case, "0")})
